@@ -420,29 +420,32 @@ theorem ca_replay_eq_live_obs (env : CaSt → List CaK.Ev → Option Nat)
   replay_eq_live_obs (Nat.le_refl 1) ops R
 
 /-- Non-vacuity (`caHistory`): a complete key roll through three store objects with a snapshot in
-the middle, a failed write, a cache drop and a refused command.  All ways of loading agree on
-version 12, class 0 `active` again (under the new key), two classes; the snapshot is the one taken
+the middle, a failed write, a cache drop and two refused commands.  All ways of loading agree on
+version 13, class 0 `active` again (under the new key), two classes; the snapshot is the one taken
 at version 8, in the middle of the roll. -/
 example :
     let e := run (Ent.empty : Ent (caAgg noEnv)) caHistory
-    caView (loadScratch e) = some (12, some .active, 2) ∧
-    caView (loadFresh e) = some (12, some .active, 2) ∧
-    caView (getLatest e 1).2 = some (12, some .active, 2) ∧
+    caView (loadScratch e) = some (13, some .active, 2) ∧
+    caView (loadFresh e) = some (13, some .active, 2) ∧
+    caView (getLatest e 1).2 = some (13, some .active, 2) ∧
     e.kv.snapshot.map (·.version) = some 8 ∧
     (e.kv.snapshot.bind fun v => (AMap.get (CaSt.ca v.st).classes 0).map (·.keys.variant))
       = some .rollPending := by
   decide +kernel
 
-/-- Non-vacuity, the veto: operation 9 of `caHistory` (a revocation request naming the class that
-is still pending) passes `process_command` and `apply`, the listener refuses it ("missing resource
-class"), the store answers with that error and stores nothing – the log is as long as before. -/
+/-- Non-vacuity, a refused command: operation 9 of `caHistory` (a revocation request naming the
+class that is still pending, for a key in use in class 0).  Until fix 239f0a59 it passed
+`process_command` and `apply` and the listener refused it ("missing resource class": nothing
+stored); now `process_command` refuses it (`KeyUseNoIssuedCert`), the store records the failed
+command – the log grows by one, the state does not change.  (A listener veto: `vetoAgg`, and the
+`env` examples below.) -/
 example :
     let e := run (Ent.empty : Ent (caAgg noEnv)) (caHistory.take 9)
     (match (step e (.cmd 0 ⟨"c", .childRevokeKey 7 1 6⟩ false)).2 with
-      | some (.err (.listener .missingClass)) => true | _ => false) = true ∧
-    (step e (.cmd 0 ⟨"c", .childRevokeKey 7 1 6⟩ false)).1.kv.cmds.length = e.kv.cmds.length ∧
+      | some (.err (.refused .noIssuedCert)) => true | _ => false) = true ∧
+    (step e (.cmd 0 ⟨"c", .childRevokeKey 7 1 6⟩ false)).1.kv.cmds.length = e.kv.cmds.length + 1 ∧
     caView (getLatest e 0).2 = some (8, some .rollPending, 2) ∧
-    (specRun [] caHistory).length = 12 := by
+    (specRun [] caHistory).length = 13 := by
   decide +kernel
 
 /-- Non-vacuity, `env`: a task-queue failure on every key-roll activation makes that command fail
